@@ -14,6 +14,8 @@ from concurrent.futures import ThreadPoolExecutor
 from harness import tlc, tlaval
 
 DIGEST = 'sha256digest=0'
+# a ParametersSha256Digest component is an ordinary component for the schema (only the IMPLICIT digest is ignored)
+PDIGEST = 'params-sha256=' + '00' * 32
 
 
 def lvs():
